@@ -21,7 +21,7 @@ static _Bool rb_match(const char *s, size_t n, size_t at, const char *f, size_t 
 static void rb_str(struct ST_string *s, const char *bytes, size_t n)
 {
     s->m_buffer.m_size = n; s->m_buffer.m_chars = s->m_buffer.m_data;
-    memset(s->m_buffer.m_data, 0, sizeof(s->m_buffer.m_data));
+    { struct ST_buffer_char zero = {0}; s->m_buffer = zero; s->m_buffer.m_size = n; s->m_buffer.m_chars = s->m_buffer.m_data; }
     for (size_t i = 0; i < RB_S + 1; i++) if (i < n) s->m_buffer.m_data[i] = bytes[i];
 }
 #ifndef RB_SPLIT
@@ -77,6 +77,9 @@ void hb_str_split(void)
     ST_EXC = 0; ST_LIVE = 0; ST_FAULT = 0; VB_OVER = 0;
     char R_s[RB_S], R_f[RB_F + 1]; size_t R_sn = nondet_size_t(), R_fn = nondet_size_t(), R_max = nondet_size_t(); _Bool R_ci = nondet_bool(); int R_form = nondet_int();
     __CPROVER_assume(R_sn <= RB_S && R_fn <= RB_F && R_form >= 0 && R_form <= 2);
+#ifdef RB_FORM
+    __CPROVER_assume(R_form == RB_FORM);
+#endif
     for (size_t i = 0; i < RB_F; i++) if (i < R_fn) __CPROVER_assume(R_f[i] != 0);      /* a C-string separator has no NUL before its end */
     R_f[R_fn] = 0;
     if (R_form == 2) __CPROVER_assume(R_fn == 1 && (unsigned char)R_f[0] < 0x80);       /* split(char): documented precondition */
